@@ -101,6 +101,11 @@ def r_comments(t):
     return "\n".join(out)
 
 
+def r_comments_tight(t):
+    """A comment glued to the last character of every statement (no blank before the semicolon)."""
+    return "\n".join(l + (";c, (r1)+ #5" if l.strip() else "") for l in t.split("\n"))
+
+
 def r_synonyms(t):
     for a, b in SYNONYMS.items():
         t = protect(t, lambda s, a=a, b=b: re.sub(r"(^|\n|:\s*)" + re.escape(a) + r"(\s|$)", lambda m: m.group(1) + b + m.group(2), s))
@@ -113,7 +118,7 @@ def r_implicit_word(t):
 
 RULES = {
     "upper": r_upper, "mixed-case": r_mixed, "upper-mnemonic": r_upper_mnemonic, "upper-symbols": r_upper_symbols, "regs-percent": r_regs_percent,
-    "sp-pc-numbers": r_sp_pc, "sp-pc-upper": r_sp_pc_upper, "blanks": r_blanks, "comments": r_comments, "synonyms": r_synonyms,
+    "sp-pc-numbers": r_sp_pc, "sp-pc-upper": r_sp_pc_upper, "blanks": r_blanks, "comments": r_comments, "comments-tight": r_comments_tight, "synonyms": r_synonyms,
     "implicit-word": r_implicit_word,
 }
 MARKER_VARIANTS = {
@@ -159,8 +164,10 @@ def h_pair(params, vals, ctx):
             require(-65536 < vals[v] < 65536)
     if "V" in vals:
         require(0 <= vals["V"] < 256)
-    o1 = assemble([("a.mac", params["canon"])], vals, route=ctx.route)
-    o2 = assemble([("a.mac", params["variant"])], vals, route=ctx.route)
+    pre1 = [tuple(f) for f in params.get("canon_pre", [])]      # a file linked ahead (exports the symbols the program uses)
+    pre2 = [tuple(f) for f in params.get("variant_pre", [])]
+    o1 = assemble(pre1 + [("a.mac", params["canon"])], vals, route=ctx.route)
+    o2 = assemble(pre2 + [("a.mac", params["variant"])], vals, route=ctx.route)
     ctx.observe_outcome(o1)
     ctx.observe_outcome(o2)
     ctx.reach(o1.status == "ok" and o2.status == "ok")
@@ -203,6 +210,34 @@ def obligations(tier, seed):
         for name, kw in MARKER_VARIANTS.items():
             canon, var = make_pair([stmt], [], kw)
             add(f"rule/{name}", canon, var)
+    # two rules on one statement: exhaustive in the thorough tier; in the quick tier the implicit word list (a different parser entry) x every rule
+    import itertools as _it
+    for stmt in CATALOGUE:
+        for r1, r2 in _it.combinations(list(RULES), 2):
+            if tier == "quick" and "implicit-word" not in (r1, r2):
+                continue
+            if {r1, r2} == {"upper", "mixed-case"}:
+                continue
+            first, second = (r1, r2) if r1 == "implicit-word" or r2 != "implicit-word" else (r2, r1)
+            if "implicit-word" in (r1, r2) and make_pair([stmt], ["implicit-word"], {})[0] == make_pair([stmt], ["implicit-word"], {})[1]:
+                continue
+            canon, var = make_pair([stmt], [first, second], {})
+            add(f"rule2/{first}+{second}", canon, var)
+    # symbols exported by another file: the letter case of the definition and of the reference are independent
+    defs = "lab:: .word {X}, lab, 17\nsub:: tst (r0)\nx1 == {X} + 2\n"
+    uses = ["jsr pc, sub", "sob r2, lab", "bne lab", "mov #x1, @#x1", ".word lab - sub, x1", "bcs lab", "mov lab, sub"]
+    canon_u = ".link {B}\n" + "\n".join(uses) + "\n"
+    for rd in (None, "upper", "mixed-case"):
+        for ru in (None, "upper", "mixed-case", "upper-symbols"):
+            if rd is None and ru is None:
+                continue
+            vd = RULES[rd](defs) if rd else defs
+            vu = RULES[ru](canon_u) if ru else canon_u
+            ob = _ob(f"two-files/defs-{rd or 'same'}/uses-{ru or 'same'}", canon_u, vu)
+            ob.vars["X"] = "int"
+            ob.params["canon_pre"] = [["d.mac", defs]]
+            ob.params["variant_pre"] = [["d.mac", vd]]
+            obs.append(ob)
     # compositions on small programs
     n = 600 if tier == "thorough" else 60
     for k in range(n):
